@@ -111,3 +111,25 @@ Example ex_inplace_points :
   map (fun k => cr_crash_at Cr_Death (cr_save_inplace 1 1 cr_ex_body) k cr_ex_fs 1) (seq 0 7) =
   [Some cr_ex_old; Some []; Some []; Some []; Some (firstn 8 cr_ex_new); Some (firstn 8 cr_ex_new); Some cr_ex_new].
 Proof. vm_compute. reflexivity. Qed.
+
+(* the hypotheses of atomic_never_loses / inplace_loses_everything hold together for a concrete codec and chunking policy
+   (entries = unit, file = byte 123 followed by length-prefixed keys; policy = write 5 bytes, spill 3, write the rest) *)
+Example ex_session_hyps :
+  (forall s, cr_ex_decode (cr_ex_encode s) = Some s) /\
+  (forall b, cr_body_ok 1 b (cr_ex_policy b) = true) /\
+  cr_ex_decode [] = None.
+Proof. exact cr_ex_hyps. Qed.
+
+(* a session on that instance, computed: save "a"; save "b" but stop after 2 operations with 2 buffered bytes reaching the file; save "c"; save "a" again.
+   temp+replace: the file parses and holds a and c.   in place: the file is left with a strict prefix of the new text,
+   no longer parses, and the later saves change nothing *)
+Definition ex_reqs : list (@cr_req unit) :=
+  [cr_mkreq [97]%N tt None; cr_mkreq [98]%N tt (Some (2, Cr_Partial 2)); cr_mkreq [99]%N tt None; cr_mkreq [97]%N tt None].
+Example ex_session_atomic :
+  cr_load cr_ex_decode 1 (cr_session cr_ex_encode cr_ex_decode cr_ex_policy 1 1 2 Cr_Atomic [] ex_reqs)
+  = Some [([97]%N, tt); ([99]%N, tt)].
+Proof. vm_compute. reflexivity. Qed.
+Example ex_session_inplace :
+  let fs := cr_session cr_ex_encode cr_ex_decode cr_ex_policy 1 1 2 Cr_InPlace [] ex_reqs in
+  cr_file fs 1 = Some [123; 1]%N /\ cr_load cr_ex_decode 1 fs = None.
+Proof. vm_compute. split; reflexivity. Qed.
